@@ -54,7 +54,7 @@ Definition stmt_chosen_runs : Prop :=
 Definition stmt_none_stops : Prop :=
   forall SS (sch : scheduler SS) ms fuel main objs st w st' out, Run sch ms fuel main objs st w st' out ->
   forall pre off cur y, In (EvDecision pre off cur y None) (w_trace w) ->
-    out = OStopped /\ hd_error (w_trace w) = Some (EvDecision pre off cur y None).
+    (out <> OFuel -> out = OStopped) /\ hd_error (w_trace w) = Some (EvDecision pre off cur y None).
 
 (* ---------------- C03 ---------------- *)
 Definition stmt_deadlock_sound : Prop :=
@@ -116,17 +116,25 @@ Definition stmt_bound_unaffected : Prop :=
              /\ map erase (w_trace w2) = map erase (w_trace w) /\ w_e w2 = w_e w /\ w_s w2 = w_s w.
 
 (* ---------------- C01 ---------------- *)
+(* every task the scheduler answered was among the offered ones (true of every run under a `sane` scheduler) *)
+Definition decisions_offered (w : world) : Prop :=
+  forall pre off cur y t, In (EvDecision pre off cur y (Some t)) (w_trace w) -> In t off.
+Fixpoint nrand (l : list sstep) : nat := match l with [] => 0 | StRandom :: r => S (nrand r) | _ :: r => nrand r end.
+(* every recorded random step produced a value (false only if the scheduler's data source itself failed) *)
+Definition draws_complete (w : world) : Prop := nrand (recorded (w_e w)) = length (draws (w_trace w)).
+
 (* Re-running under the replay scheduler loaded with the recorded schedule and the drawn values
-   reproduces the identical world (states, objects, continuations, whole trace) and outcome, and the
-   replay scheduler reaches none of its panics.  `rp_ended` can only be set if the recorded
-   execution itself was stopped by its scheduler. *)
+   reproduces the identical world (states, objects, continuations, whole trace) and outcome; the
+   replay scheduler reaches none of its panics (given the draws are complete); `rp_ended` can only be
+   set if the recorded execution itself was stopped by its scheduler. *)
 Definition stmt_replay : Prop :=
   forall SS (sch : scheduler SS) ms fuel main objs st w st' out, Run sch ms fuel main objs st w st' out ->
-  out <> OFuel -> out <> OSchedulerBug ->
+  out <> OFuel -> out <> OSchedulerBug -> decisions_offered w ->
   exists rst, run_exec replay ms fuel main objs (mkReplay (rev (recorded (w_e w))) (draws (w_trace w)) false false)
               = (w, rst, out)
-           /\ rp_failed rst = false
-           /\ (rp_ended rst = true -> exists pre off cur y, hd_error (w_trace w) = Some (EvDecision pre off cur y None)).
+           /\ (rp_failed rst = false <-> draws_complete w)
+           /\ (rp_failed rst = false -> rp_ended rst = true ->
+               exists pre off cur y, hd_error (w_trace w) = Some (EvDecision pre off cur y None)).
 
 (* the recorded schedule and the drawn values determine the execution: two runs under any two
    schedulers that record the same schedule and draw the same values are identical *)
@@ -134,7 +142,16 @@ Definition stmt_schedule_complete : Prop :=
   forall SS1 SS2 (s1 : scheduler SS1) (s2 : scheduler SS2) ms fuel main objs st1 st2 w1 w2 st1' st2' o1 o2,
     Run s1 ms fuel main objs st1 w1 st1' o1 -> Run s2 ms fuel main objs st2 w2 st2' o2 ->
     o1 <> OFuel -> o2 <> OFuel -> o1 <> OSchedulerBug -> o2 <> OSchedulerBug ->
+    decisions_offered w1 -> decisions_offered w2 ->
     recorded (w_e w1) = recorded (w_e w2) -> draws (w_trace w1) = draws (w_trace w2) ->
-    (forall pre off cur y, hd_error (w_trace w1) = Some (EvDecision pre off cur y None) <->
-                           hd_error (w_trace w2) = Some (EvDecision pre off cur y None)) ->
     w1 = w2 /\ o1 = o2.
+
+(* for schedulers that only answer offered tasks and whose data source never fails, the replay is exact and clean *)
+Definition total_rand {SS} (sch : scheduler SS) : Prop := forall st, fst (s_next_u64 sch st) <> None.
+Definition stmt_replay_sane : Prop :=
+  forall SS (sch : scheduler SS) ms fuel main objs st w st' out, Run sch ms fuel main objs st w st' out ->
+  sane sch -> total_rand sch -> out <> OFuel -> out <> OSchedulerBug ->
+  exists rst, run_exec replay ms fuel main objs (mkReplay (rev (recorded (w_e w))) (draws (w_trace w)) false false)
+              = (w, rst, out)
+           /\ rp_failed rst = false
+           /\ (rp_ended rst = true -> exists pre off cur y, hd_error (w_trace w) = Some (EvDecision pre off cur y None)).
